@@ -588,9 +588,11 @@ theorem root_mkdirAll_safe (env : Env) (root : Root) (path : Bytes) (perm : Nat)
   · exact FdOk_err _
   · split
     · exact FdOk_err _
-    · apply Safe.mbind (Q' := fun r => ∀ h rem, r = .ok (h, rem) → 0 ≤ h)
-        (Safe.toTrue (partialTarget_safe env root path hr hp))
-      · intro pr hpr
-        obtain ⟨handle, remaining⟩ := pr
-        exact mkdirFrom_safe env perm handle remaining (hpr handle remaining rfl) hp
-      · intro e _; exact FdOk_err e
+    · split
+      · exact FdOk_err _
+      · apply Safe.mbind (Q' := fun r => ∀ h rem, r = .ok (h, rem) → 0 ≤ h)
+          (Safe.toTrue (partialTarget_safe env root path hr hp))
+        · intro pr hpr
+          obtain ⟨handle, remaining⟩ := pr
+          exact mkdirFrom_safe env perm handle remaining (hpr handle remaining rfl) hp
+        · intro e _; exact FdOk_err e
